@@ -104,7 +104,7 @@ impl Check for IrsCheck {
                     ("delete_country_data", g, x)
                 }
             };
-            st.hit(if got { "tx.ok" } else { "tx.refused" });
+            st.tx(kind, got);
             if got != exp {
                 let check = if kind == "add_identity" && got && rec.contains_key(match s { Step::Add { acc, .. } => acc, _ => unreachable!() }) { "irs.recovered_never_reregistered" } else { "irs.dup_or_absent_refused" };
                 return Err(violation(check, kind, i, format!("{s:?}: real {got} model {exp}; registered {:?} recovered {rec:?}", reg.keys().collect::<std::vec::Vec<_>>())));
